@@ -42,6 +42,18 @@ def driftQ (eps : α) : IMass α n → Vec α n → Vec α n → Vec α n
   | .diag d, q, p => fun i => q i + (eps * d i) * p i
   | .dense m, q, p => fun i => q i + eps * (sumFin fun j => m i j * p j)
 
+/-- a vector evaluated once and kept as an array.  `ofArr (toArr v) = v` (`force_eq`); the models
+write `ofArr (toArr …)` where the code materialises a tensor — a vector left as a closure would be
+recomputed at every use (exponential in the number of steps). -/
+def toArr {β : Type} (v : Vec β n) : { a : Array β // a.size = n } :=
+  ⟨Array.ofFn v, by simp⟩
+
+def ofArr {β : Type} (a : { a : Array β // a.size = n }) : Vec β n :=
+  fun i => a.1[i.val]'(by rw [a.2]; exact i.isLt)
+
+theorem force_eq {β : Type} (v : Vec β n) : ofArr (toArr v) = v := by
+  funext i; simp [ofArr, toArr]
+
 /-- `dU = -torch.cat([parameter.grad ...])` -/
 def negGrad (g : Vec α n → Vec α n) (q : Vec α n) : Vec α n := fun i => -(g q i)
 
@@ -53,9 +65,9 @@ structure LoopSt (α : Type) (n : Nat) where
 
 /-- one iteration of `for _ in range(self.steps)` -/
 def loopBody (g : Vec α n → Vec α n) (eps : α) (im : IMass α n) (s : LoopSt α n) : LoopSt α n :=
-  let q' := driftQ eps im s.q s.p
-  let dU' := negGrad g q'
-  ⟨q', fun i => s.p i - eps * dU' i, dU'⟩
+  let q' := ofArr (toArr (driftQ eps im s.q s.p))
+  let dU' := ofArr (toArr (negGrad g q'))
+  ⟨q', ofArr (toArr fun i => s.p i - eps * dU' i), dU'⟩
 
 /-- the `for` loop -/
 def loop (g : Vec α n → Vec α n) (eps : α) (im : IMass α n) : Nat → LoopSt α n → LoopSt α n
@@ -66,10 +78,10 @@ def loop (g : Vec α n → Vec α n) (eps : α) (im : IMass α n) : Nat → Loop
 (`h = step_size / 2`): returns (positions written into the parameters, returned momentum) -/
 def leapfrogWith (g : Vec α n → Vec α n) (h eps : α) (im : IMass α n) (steps : Nat)
     (q p : Vec α n) : Vec α n × Vec α n :=
-  let dU := negGrad g q
-  let p1 : Vec α n := fun i => p i - h * dU i
+  let dU := ofArr (toArr (negGrad g q))
+  let p1 : Vec α n := ofArr (toArr fun i => p i - h * dU i)
   let s := loop g eps im steps ⟨q, p1, dU⟩
-  (s.q, fun i => s.p i + h * s.dU i)
+  (s.q, ofArr (toArr fun i => s.p i + h * s.dU i))
 
 /-- every state the integrator passes through after a position update (for the exactness budget
 of the correspondence and for the `nan` checks of `HMCOperator._step`) -/
@@ -121,8 +133,8 @@ variable {α : Type} [Add α] [Sub α] [Mul α] [Neg α] [Zero α] {n : Nat}
 /-- does a trial raise? (initial position, then every position of the loop) -/
 def trialRaises (bad : Vec α n → Bool) (g : Vec α n → Vec α n) (h eps : α) (im : IMass α n)
     (steps : Nat) (q p : Vec α n) : Bool :=
-  let dU := negGrad g q
-  let p1 : Vec α n := fun i => p i - h * dU i
+  let dU := ofArr (toArr (negGrad g q))
+  let p1 : Vec α n := ofArr (toArr fun i => p i - h * dU i)
   bad q || (loopTrace g eps im steps ⟨q, p1, dU⟩).any fun s => bad s.q
 
 /-- one successful trial: `kinetic_energy0 - kinetic_energy` -/
